@@ -2,6 +2,7 @@
 #include "common.hpp"
 #include "libphysica/Linear_Algebra.hpp"
 #include "libphysica/Natural_Units.hpp"
+#include "libphysica/Numerics.hpp"
 #include "libphysica/Special_Functions.hpp"
 #include "libphysica/Utilities.hpp"
 
@@ -39,9 +40,85 @@ static double rnd_value(Rng& g, double unit)
 	return v;
 }
 
+// beyond the listed properties: Save_Function of both interpolation classes as exporters of the file machine
+static int record_saved(Rng& g, bool quick, Trace& T, const std::string& dir)
+{
+	int ncase = quick ? 60 : 600;
+	for(int c = 0; c < ncase; c++)
+	{
+		int dim = 1 + c % 2;
+		int nx = (int)g.range(3, 9), ny = (int)g.range(3, 6);  // (both classes refuse fewer than three nodes per direction)
+		std::vector<double> xs(nx), ys(ny);
+		double x = g.uni(-5, 5), y = g.uni(-5, 5), mag = std::pow(10.0, g.uni(-30, 30));
+		for(auto& v : xs)
+			v = (x += g.logu(1e-2, 10));
+		for(auto& v : ys)
+			v = (y += g.logu(1e-2, 10));
+		int xp = (int)g.range(2, 40), yp = dim == 1 ? 0 : (g.coin(0.3) ? 0 : (int)g.range(2, 12));
+		std::string path = dir + "/s" + std::to_string(c) + ".txt";
+		std::vector<std::vector<double>> tab;
+		intent("Save_Function dim " + std::to_string(dim));
+		if(dim == 1)
+		{
+			std::vector<double> f(nx);
+			for(auto& v : f)
+				v = g.gauss() * mag;
+			Interpolation I(xs, f);
+			if(g.coin(0.3))
+				I.Multiply(-2.5);
+			I.Save_Function(path, xp);
+			for(double xx : Linear_Space(xs.front(), xs.back(), xp))
+				tab.push_back({xx, I(xx)});
+		}
+		else
+		{
+			std::vector<std::vector<double>> f(nx, std::vector<double>(ny));
+			for(auto& r : f)
+				for(auto& v : r)
+					v = g.gauss() * mag;
+			Interpolation_2D I(xs, ys, f);
+			if(yp == 0)
+				I.Save_Function(path, xp);
+			else
+				I.Save_Function(path, xp, yp);
+			for(double xx : Linear_Space(xs.front(), xs.back(), xp))
+				for(double yy : Linear_Space(ys.front(), ys.back(), yp == 0 ? xp : yp))
+					tab.push_back({xx, yy, I(xx, yy)});
+		}
+		T.emit({{"e", "Saved"}, {"dim", dim}, {"xp", xp}, {"yp", yp}, {"lines", count_lines(path)}});
+		auto back = Import_Table(path);
+		int rows = (int)tab.size(), cols = dim + 1;
+		double worst = 0;
+		bool signok	 = true;
+		int brows = (int)back.size(), bcols = back.empty() ? 0 : (int)back[0].size();
+		if(brows == rows && bcols == cols)
+			for(int i = 0; i < rows; i++)
+				for(int j = 0; j < cols; j++)
+				{
+					double a = tab[i][j], b = back[i][j];
+					if(a == 0)
+						worst = std::max(worst, std::fabs(b) > 0 ? 1.0 : 0.0);
+					else
+						worst = std::max(worst, std::fabs((b - a) / a));
+					signok = signok && ((a > 0) == (b > 0) || a == 0);
+				}
+		T.emit({{"e", "Import"}, {"skipped", 0}, {"rows", brows}, {"cols", bcols}, {"maxrelq", quant(worst, 5.0e-6 * (1 + 1e-9) + 8 * EPS)}, {"signok", signok}});
+		std::remove(path.c_str());
+	}
+	T.flush();
+	finished();
+	return 0;
+}
+
 int main(int argc, char** argv)
 {
 	guard_install(1500);
+	if(argc == 6 && std::string(argv[1]) == "saved")
+	{
+		Rng g(std::strtoull(argv[2], nullptr, 10));
+		Trace T(argv[4]);
+		return record_saved(g, std::string(argv[3]) == "quick", T, argv[5]);
+	}
 	if(argc != 6 || std::string(argv[1]) != "record")
 	{
 		finished();
